@@ -22,6 +22,7 @@ func racMarkerSource(pkgName string) string {
 	return "package " + pkgName + `
 
 import (
+	"fmt"
 	"os"
 	"runtime"
 	"strings"
@@ -56,7 +57,12 @@ func __rac_caller(skip int) string {
 	return n
 }
 
-func __rac_prefail(name string) { __rac_emit("RAC-PREFAIL", __rac_caller(2)+"#pre:"+name) }
+func __rac_prefail(name string, args ...any) {
+	__rac_emit("RAC-PREFAIL", __rac_caller(2)+"#pre:"+name)
+	if os.Getenv("HVC_RACDETAIL") != "" {
+		os.Stderr.WriteString("RAC-INFO-PREFAIL-ARGS " + name + " " + strings.ReplaceAll(fmt.Sprint(args...), "\n", " ") + "\n")
+	}
+}
 
 func __old[T any](x T) T                         { return x }
 
@@ -274,7 +280,21 @@ func buildOverlayRAC(root, pkgDir string) (map[string][]byte, error) {
 					fmt.Fprintf(&sb, " __racPre = __racPre && __guard(func() bool { return %s });", specToGo(txt, resultName))
 				}
 			}
-			fmt.Fprintf(&sb, " if !__racPre { __rac_prefail(%q) };", c.Key)
+			var pnames []string
+			if fd.Type.Params != nil {
+				for _, fld := range fd.Type.Params.List {
+					for _, nm := range fld.Names {
+						if nm.Name != "_" {
+							pnames = append(pnames, nm.Name)
+						}
+					}
+				}
+			}
+			extra := ""
+			if len(pnames) > 0 {
+				extra = ", " + strings.Join(pnames, ", ")
+			}
+			fmt.Fprintf(&sb, " if !__racPre { __rac_prefail(%q%s) };", c.Key, extra)
 			counter := 0
 			ti := 0
 			var checks strings.Builder
